@@ -20,7 +20,7 @@ ASSUMPTIONS = ['serial request units are drawn from 1..247 (0 is broadcast, 0 an
                'binary transactions whose frames contain delimiter bytes are excluded (KF-BINARY-FRAMER-DELIMITER-BYTES)']
 BUDGET = {'quick': 5000, 'thorough': 10000}
 CLIENTS = ['tcp', 'rtu', 'ascii', 'binary', 'tcp+rtu', 'tcp+ascii']
-PARTS = ['reply', 'reply', 'exc', 'other_tid', 'other_unit', 'other_fc', 'dup_prev']
+PARTS = ['reply', 'reply', 'exc', 'other_tid', 'other_unit', 'other_fc', 'dup_prev', 'tid_zero', 'tid_max']
 
 
 def framing_of(client):
@@ -63,7 +63,7 @@ def _case(draw):
         script = draw(st.one_of(st.just(['reply']), st.just(['reply']), st.just(['exc']),
                                 st.lists(st.sampled_from(PARTS), min_size=0, max_size=3)))
         txs.append({'kind': k, 'fields': f, 'unit': draw(st.integers(1, 247)), 'script': script})
-    return {'client': client, 'tid_start': draw(st.sampled_from([0, 0, 65533, 65534])), 'txs': txs,
+    return {'client': client, 'tid_start': draw(st.sampled_from([0, 0, 65532, 65533, 65534, 65535])), 'txs': txs,
             'serial': draw(transports.serial_options()) if client in ('rtu', 'ascii', 'binary') else {}}
 
 
@@ -97,6 +97,12 @@ class ScriptPeer(transports.Peer):
                 fr = (uid, tid, bytes([rpdu[0] | 0x80, 1 + self.seq % 4]))
             elif part == 'other_tid':
                 fr = (uid, ((tid or 0) + 5) & 0xFFFF, transports.reply_pdu(rpdu, self.seq + 1000))
+            elif part in ('tid_zero', 'tid_max'):
+                # a stale reply carrying the smallest / largest transaction id (ids just after / before the counter wraps)
+                t_ = 0 if part == 'tid_zero' else 0xFFFF
+                if (tid or 0) == t_:
+                    t_ ^= 0x0101
+                fr = (uid, t_, transports.reply_pdu(rpdu, self.seq + 3000))
             elif part == 'other_unit':
                 other = [0, (uid % 247) + 1, 255, uid - 1 if uid > 1 else 2][(self.seq + len(self.placed)) % 4]
                 fr = (other, tid, transports.reply_pdu(rpdu, self.seq + 2000))
@@ -107,7 +113,7 @@ class ScriptPeer(transports.Peer):
                 if self.prev_reply is None:
                     continue
                 fr = self.prev_reply
-            role = part
+            role = 'other_tid' if part in ('tid_zero', 'tid_max') else part
             frame = refframe.build(self.framing, fr[0], fr[2], fr[1] or 0, 0)
             self.placed.append({'uid': fr[0], 'tid': fr[1], 'pdu': fr[2], 'role': role, 'frame': frame})
             if part in ('reply', 'exc'):
